@@ -1483,6 +1483,13 @@ def check(run):
     for pi, (at, bt, a, b, kind) in enumerate(pairs):
         lines.append("cmp %s %s" % (hx(at), hx(bt)))
         meta.append((pi, "cmp"))
+    # node identities (which node of the document / of the patch document / fresh node ends up where): jbn_patch, jbn_patch_auto
+    nid0 = len(lines)
+    id_cases = [ci for ci in range(len(cases)) if isinstance(cases[ci][3], list) and (ci % 2 == 0 or cases[ci][4] != "gen")]
+    for ci in id_cases:
+        for m in ("tn", "ta"):
+            lines.append("idpatch %s %s %s" % (m, hx(cases[ci][0]), hx(cases[ci][1])))
+            meta.append((ci, "id-" + m))
     impl_env = dict(os.environ, H_JPATCH_PAR="1") if "parent-pointers" in OPEN_ON else None
     out_i, crashes = run_robust(impl, lines, env=impl_env)
     rc2, out_m, err2 = vlib.run_lines(model, "\n".join(lines) + "\n", timeout=600)
@@ -1625,6 +1632,73 @@ def check(run):
             if nviol <= 40:
                 run.violation(rep, "the equality used by `test` (jbn_compare_nodes == 0) differs from rfc6902 4.6: %s against %s -> %s, "
                               "expected %s" % (at[:300], bt[:300], out_i[i], exp))
+    # ---- ORACLE for the node identities: the result is a tree (no node listed twice); a node of the patch document in the result
+    #      is a node of some operation's "value" (only operands are linked in); parent pointers (gated class parent-pointers)
+    def value_ranges(prog):
+        """depth-first numbers (as the harness numbers the patch document) of the nodes inside the "value" members"""
+        ok, cnt = set(), [0]
+
+        def walk(v, inside):
+            me = cnt[0]
+            cnt[0] += 1
+            if inside:
+                ok.add(me)
+            if isinstance(v, list):
+                for x in v:
+                    walk(x, inside)
+            elif isinstance(v, dict):
+                for k2, x in v.items():
+                    walk(x, inside)
+        cnt[0] = 1      # 0 is the patch array itself
+        for o in prog:
+            me = cnt[0]
+            cnt[0] += 1
+            if isinstance(o, dict):
+                for k2, x in o.items():
+                    walk(x, "value".startswith(k2) and not "op".startswith(k2))
+            elif isinstance(o, list):
+                for x in o:
+                    walk(x, False)
+        return ok
+    for k, ci in enumerate(id_cases):
+        dt, pt, doc, prog, origin = cases[ci]
+        okp = None
+        for mi, m in enumerate(("tn", "ta")):
+            i = nid0 + 2 * k + mi
+            if i >= len(out_i) or out_i[i] == "SKIPPED":
+                continue
+            o = out_i[i]
+            run.dist("identity:" + m)
+            rep = {"kind": "idpatch", "mode": m, "doc": dt, "patch": pt, "impl": o, "oracle": "identity"}
+            if o.startswith("CRASH"):
+                nviol += 1
+                if nviol <= 40:
+                    run.violation(rep, "the implementation crashed/hung applying the patch (%s): doc %s patch %s" % (o, dt, pt))
+                continue
+            f = fields(o)
+            if "own" not in f:
+                continue
+            if f.get("dup") != "0":
+                nviol += 1
+                if nviol <= 40:
+                    run.violation(rep, "after the patch a node is listed twice (the tree is not a tree): doc %s patch %s -> %s" % (dt, pt, o[:200]))
+                continue
+            own = f["own"].split(",")
+            ps = [int(x[1:]) for x in own if x.startswith("p")]
+            ds = [x for x in own if x.startswith("d")]
+            if okp is None:
+                okp = value_ranges(prog)
+            if len(set(ps)) != len(ps) or len(set(ds)) != len(ds) or any(x not in okp for x in ps):
+                nviol += 1
+                if nviol <= 40:
+                    run.violation(rep, "a node of the patch document that is no operand value ended up in the result, or a node is linked "
+                                       "at two places: doc %s patch %s -> %s" % (dt, pt, o[:200]))
+                continue
+            if f.get("par") == "bad" and "parent-pointers" in OPEN_ON:
+                rep["class"] = "parent-pointers"
+                nviol += 1
+                if nviol <= 40:
+                    run.violation(rep, "after the patch a child's `parent` pointer is not the node that lists it: doc %s patch %s -> %s" % (dt, pt, o[:200]))
     return run.finish(level=LEVEL,
                       rule="(document, patch program) pairs: documents of depth <= 3 over a small key alphabet (escaped '/', '~', "
                            "numeric-looking keys, prefixes of one another), programs of 1-8 operations generated against the "
@@ -1670,6 +1744,8 @@ def replay(run, path):
         line = "cmp %s %s" % (hx(r["doc"]), hx(r["patch"]))
     elif r.get("kind") == "patch":
         line = "patch %s %s %s" % (r["mode"], hx(r["doc"]), hx(r["patch"]))
+    elif r.get("kind") == "idpatch":
+        line = "idpatch %s %s %s" % (r["mode"], hx(r["doc"]), hx(r["patch"]))
     elif r.get("kind") == "mpath":
         line = "mpath %s %s %s %s" % (r["mode"], hx(r["doc"]), hx(r["path"]), hx(r["val"]) if r.get("val") is not None else "-")
     elif r.get("kind") == "regs":
